@@ -1,7 +1,9 @@
 """Python reference of the Core jets on words (arithmetic, logic, comparison, shift, resize and
 division families) and on typed values (SHA-256 family, parse_lock / parse_sequence, secp256k1 field and
-scalar arithmetic), independent of coq/Jets/JetSpec.v: written from the meaning of the jets
-(simplicity-sys/depend/simplicity/jets.c, tech report), on python integers and bit lists.
+scalar arithmetic, secp256k1 points: affine / Jacobian group operations with libsecp256k1's exact Jacobian
+representatives, secp256k1_ecmult, swu, hash_to_curve), independent of coq/Jets/JetSpec*.v: written from the
+meaning of the jets (simplicity-sys/depend/simplicity/jets.c, jets-secp256k1.c, secp256k1/*.h, tech report),
+on python integers and bit lists; bip_0340_verify and check_sig_verify from BIP-340.
 
 API
   SPECIFIED               set of jet names with a reference here
@@ -501,6 +503,436 @@ _regv("fe_is_odd", wty(256), BIT, lambda v: _bitv(wnum(v) % FE_P % 2 == 1), "mod
 _regv("fe_square_root", wty(256), pg.opt(wty(256)), _fe_sqrt, "mod1", FE_P)
 
 
+# ------------------------------------------------------------------ secp256k1: points
+# GE = (x, y) a point in affine coordinates (never the point at infinity), GEJ = ((x, y), z) a point in Jacobian
+# coordinates (x / z^2, y / z^3), the point at infinity when z = 0.  Coordinates are arbitrary 256-bit patterns, reduced
+# on reading.  The results carry the exact Jacobian representative libsecp256k1 computes (group_impl.h: gej_double_var,
+# gej_add_var, gej_add_ge_var, ecmult_impl.h: Strauss/wNAF with the endomorphism and a common z for the table), so the
+# reference follows the same sequence of field operations, as a small register machine over integers modulo p.
+GE_T = wty(512)
+GEJ_T = pg.P(wty(512), wty(256))
+G_X = 0x79BE667EF9DCBBAC55A06295CE870B07029BFCDB2DCE28D959F2815B16F81798
+G_Y = 0x483ADA7726A3C4655DA4FBFC0E1108A8FD17B448A68554199C47D08FFB10D4B8
+assert (G_Y * G_Y - G_X ** 3 - 7) % FE_P == 0
+
+
+def _finv(x):
+    return pow(x, FE_P - 2, FE_P)
+
+
+def _fsqrt(a):
+    """the candidate root a^((p+1)/4) and whether it is one"""
+    r = pow(a, (FE_P + 1) // 4, FE_P)
+    return r, r * r % FE_P == a % FE_P
+
+
+def _rd_fe(v):
+    return wnum(v) % FE_P
+
+
+def _rd_ge(v):
+    return [_rd_fe(v[1]), _rd_fe(v[2])]
+
+
+def _rd_gej(v):
+    """[x, y, z, infinity flag]"""
+    z = _rd_fe(v[2])
+    return _rd_ge(v[1]) + [z, z == 0]
+
+
+def _wr_ge(x, y):
+    return ("P", wval(256, x % FE_P), wval(256, y % FE_P))
+
+
+def _wr_gej(a):
+    return ("P", _wr_ge(a[0], a[1]), wval(256, a[2] % FE_P))
+
+
+_INF = [0, 0, 0, True]
+
+
+def _gej_double_var(a):
+    """-> (point, rzr)"""
+    p = FE_P
+    if a[3]:
+        return list(_INF), 1
+    x, y, z = a[:3]
+    rzr = y
+    z3 = z * y % p
+    s = y * y % p
+    l = 3 * x * x % p
+    l = (l + p) // 2 if l & 1 else l // 2
+    t = -s * x % p
+    x3 = (l * l + t + t) % p
+    s = s * s % p
+    t = (t + x3) % p
+    y3 = -(t * l + s) % p
+    return [x3, y3, z3, z3 == 0], rzr
+
+
+def _add_tail(a, u1, s1, h, i, rz):
+    p = FE_P
+    h2 = -h * h % p
+    h3 = h2 * h % p
+    t = u1 * h2 % p
+    rx = (i * i + h3 + 2 * t) % p
+    ry = ((t + rx) * i + h3 * s1) % p
+    return [rx, ry, rz, False]
+
+
+def _gej_add_var(a, b):
+    """-> (point, rzr); rzr is None where the C code leaves it untouched"""
+    p = FE_P
+    if a[3]:
+        return list(b), None
+    if b[3]:
+        return list(a), 1
+    z22 = b[2] * b[2] % p
+    z12 = a[2] * a[2] % p
+    u1 = a[0] * z22 % p
+    u2 = b[0] * z12 % p
+    s1 = a[1] * z22 * b[2] % p
+    s2 = b[1] * z12 * a[2] % p
+    h = (u2 - u1) % p
+    i = (s1 - s2) % p
+    if h == 0:
+        if i == 0:
+            return _gej_double_var(a)
+        return list(_INF), 0
+    t = h * b[2] % p
+    return _add_tail(a, u1, s1, h, i, a[2] * t % p), t
+
+
+def _gej_add_ge_var(a, b, azscale=1):
+    """a + (b.x, b.y, 1 / azscale): gej_add_ge_var for azscale = 1, gej_add_zinv_var otherwise (the z of a is scaled for
+    x and y only).  -> (point, rzr)"""
+    p = FE_P
+    if a[3]:
+        s2 = azscale * azscale % p
+        return [b[0] * s2 % p, b[1] * s2 * azscale % p, 1, False], 0
+    az = a[2] * azscale % p
+    z12 = az * az % p
+    u1, s1 = a[0], a[1]
+    u2 = b[0] * z12 % p
+    s2 = b[1] * z12 * az % p
+    h = (u2 - u1) % p
+    i = (s1 - s2) % p
+    if h == 0:
+        if i == 0:
+            return _gej_double_var(a)
+        return list(_INF), 0
+    return _add_tail(a, u1, s1, h, i, a[2] * h % p), h
+
+
+def _gej_on_curve(a):
+    return (a[1] * a[1] - a[0] ** 3 - 7 * a[2] ** 6) % FE_P == 0
+
+
+def _ge_on_curve(b):
+    return (b[1] * b[1] - b[0] ** 3 - 7) % FE_P == 0
+
+
+def _gej_eq(a, b, affine):
+    """secp256k1_gej_eq_var / gej_eq_ge_var: (-a) + b is flagged as the point at infinity"""
+    na = [a[0], -a[1] % FE_P, a[2], a[3]]
+    r, _ = _gej_add_ge_var(na, b) if affine else _gej_add_var(na, b)
+    return r[3]
+
+
+def _gej_affine(a):
+    zi = _finv(a[2])
+    return a[0] * zi * zi % FE_P, a[1] * zi * zi * zi % FE_P
+
+
+def _lift_x(x, odd):
+    y, ok = _fsqrt((x ** 3 + 7) % FE_P)
+    if not ok:
+        return None
+    if (y & 1) != odd:
+        y = -y % FE_P
+    return [x, y]
+
+
+def _bit_of(v):
+    return 1 if v[0] == "R" else 0
+
+
+# ---- plain affine arithmetic for the table of multiples of G (precomputed_ecmult.h holds them normalised)
+def _aff_add(P1, P2):
+    p = FE_P
+    if P1 is None:
+        return P2
+    if P2 is None:
+        return P1
+    if P1[0] == P2[0]:
+        if (P1[1] + P2[1]) % p == 0:
+            return None
+        lam = 3 * P1[0] * P1[0] * _finv(2 * P1[1]) % p
+    else:
+        lam = (P2[1] - P1[1]) * _finv(P2[0] - P1[0]) % p
+    x = (lam * lam - P1[0] - P2[0]) % p
+    return (x, (lam * (P1[0] - x) - P1[1]) % p)
+
+
+def _aff_mul(k, P1):
+    acc = None
+    while k:
+        if k & 1:
+            acc = _aff_add(acc, P1)
+        P1 = _aff_add(P1, P1)
+        k >>= 1
+    return acc
+
+
+_G128 = _aff_mul(1 << 128, (G_X, G_Y))
+
+
+def _wnaf(s, w, length=129):
+    """secp256k1_ecmult_wnaf: digits (least significant first) and the number of digits used"""
+    out = [0] * length
+    sign = 1
+    if (s >> 255) & 1:
+        s = SC_N - s
+        sign = -1
+    bit, carry, last = 0, 0, -1
+    while bit < length:
+        if ((s >> bit) & 1) == carry:
+            bit += 1
+            continue
+        now = min(w, length - bit)
+        word = ((s >> bit) & ((1 << now) - 1)) + carry
+        carry = (word >> (w - 1)) & 1
+        word -= carry << w
+        out[bit] = sign * word
+        last = bit
+        bit += now
+    return out, last + 1
+
+
+def _split_lambda(k):
+    g1 = 0x3086D221A7D46BCDE86C90E49284EB153DAA8A1471E8CA7FE893209A45DBB031
+    g2 = 0xE4437ED6010E88286F547FA90ABFE4C4221208AC9DF506C61571B4AE8AC47F71
+    mb1 = 0xE4437ED6010E88286F547FA90ABFE4C3
+    mb2 = 0xFFFFFFFFFFFFFFFFFFFFFFFFFFFFFFFE8A280AC50774346DD765CDA83DB1562C
+    c1 = ((k * g1) >> 384) + (((k * g1) >> 383) & 1)
+    c2 = ((k * g2) >> 384) + (((k * g2) >> 383) & 1)
+    r2 = (c1 * mb1 + c2 * mb2) % SC_N
+    r1 = (k - r2 * SC_LAMBDA) % SC_N
+    return r1, r2
+
+
+def _ecmult(a, na, ng):
+    """secp256k1_ecmult (Strauss, one point): na * a + ng * G with libsecp256k1's representative"""
+    p = FE_P
+    Z = 1
+    pre = aux = None
+    wa1 = wal = ([], 0)
+    if na != 0 and not a[3]:
+        wa1, wal = (_wnaf(x, 5) for x in _split_lambda(na))
+        d, _ = _gej_double_var(a)
+        dz = d[2]
+        ai = [a[0] * dz * dz % p, a[1] * dz ** 3 % p, a[2], False]
+        pre = [ai[:2]]
+        zr = [dz]
+        for _k in range(7):
+            ai, r = _gej_add_ge_var(ai, d[:2])
+            pre.append(ai[:2])
+            zr.append(r)
+        Z = ai[2] * dz % p
+        zs = 1
+        for k in range(6, -1, -1):
+            zs = zs * zr[k + 1] % p
+            pre[k] = [pre[k][0] * zs * zs % p, pre[k][1] * zs ** 3 % p]
+        aux = [q[0] * FE_BETA % p for q in pre]
+    wg1, wg128 = _wnaf(ng & ((1 << 128) - 1), 15), _wnaf(ng >> 128, 15)
+    bits = max(wa1[1], wal[1], wg1[1], wg128[1])
+    r = list(_INF)
+
+    def entry(xs, ys, n):
+        k = (abs(n) - 1) // 2
+        return [xs[k], ys[k] if n > 0 else -ys[k] % p]
+
+    for i in range(bits - 1, -1, -1):
+        r, _ = _gej_double_var(r)
+        if i < wa1[1] and wa1[0][i]:
+            r, _ = _gej_add_ge_var(r, entry([q[0] for q in pre], [q[1] for q in pre], wa1[0][i]))
+        if i < wal[1] and wal[0][i]:
+            r, _ = _gej_add_ge_var(r, entry(aux, [q[1] for q in pre], wal[0][i]))
+        for wn, base in ((wg1, (G_X, G_Y)), (wg128, _G128)):
+            if i < wn[1] and wn[0][i]:
+                n = wn[0][i]
+                q = _aff_mul(abs(n), base)
+                r, _ = _gej_add_ge_var(r, [q[0], q[1] if n > 0 else -q[1] % p], Z)
+    if not r[3]:
+        r[2] = r[2] * Z % p
+    return r
+
+
+def _verify_sum(a, na, ng, b):
+    """na * a + ng * G - b is the point at infinity (a, b affine points on the curve)"""
+    acc = _aff_add(_aff_mul(na % SC_N, tuple(a)), _aff_mul(ng % SC_N, (G_X, G_Y)))
+    return _aff_add(acc, (b[0], -b[1] % FE_P)) is None
+
+
+def _must(ok):
+    if not ok:
+        raise pg.EvalFail("jet")
+    return ("U",)
+
+
+def _swu(t):
+    """shallue_van_de_woestijne (generator_impl.h)"""
+    p = FE_P
+    negc = 0xf5d2d456caf80e20dcc88f3d586869d339e092ea25eb132b8272d850e32a03dd     # -c, c a square root of -3
+    assert negc * negc % p == p - 3
+    d = 0x851695d49a83f8ef919bb86153cbcb16630fb68aed0a766a3ec693d68e6afa40        # (c - 1) / 2
+    assert (2 * d + 1 + negc) % p == 0
+    wd = (t * t + 8) % p
+    x3d = -3 * t * t % p
+    jinv = _finv(wd * x3d % p)
+    x1 = (d + negc * t * t * x3d * jinv) % p
+    x2 = -(x1 + 1) % p
+    x3 = (1 + wd ** 3 * jinv) % p
+    for x in (x1, x2, x3):
+        y, ok = _fsqrt((x ** 3 + 7) % p)
+        if ok or x is x3:
+            break
+    if t & 1:
+        y = -y % p
+    return x, y
+
+
+_B = BIT
+_regv("gej_infinity", UNIT, GEJ_T, lambda v: _wr_gej(_INF), "ec_const")
+_regv("gej_is_infinity", GEJ_T, _B, lambda v: _bitv(_rd_gej(v)[3]), "gej")
+_regv("gej_negate", GEJ_T, GEJ_T, lambda v: (lambda a: _wr_gej([a[0], -a[1], a[2]]))(_rd_gej(v)), "gej")
+_regv("ge_negate", GE_T, GE_T, lambda v: (lambda b: _wr_ge(b[0], -b[1]))(_rd_ge(v)), "ge")
+_regv("gej_is_on_curve", GEJ_T, _B, lambda v: _bitv(_gej_on_curve(_rd_gej(v))), "gej")
+_regv("ge_is_on_curve", GE_T, _B, lambda v: _bitv(_ge_on_curve(_rd_ge(v))), "ge")
+_regv("gej_double", GEJ_T, GEJ_T, lambda v: _wr_gej(_gej_double_var(_rd_gej(v))[0]), "gej")
+_regv("gej_add", pg.P(GEJ_T, GEJ_T), GEJ_T, lambda v: _wr_gej(_gej_add_var(_rd_gej(v[1]), _rd_gej(v[2]))[0]), "gej_gej")
+_regv("gej_ge_add", pg.P(GEJ_T, GE_T), GEJ_T, lambda v: _wr_gej(_gej_add_ge_var(_rd_gej(v[1]), _rd_ge(v[2]))[0]), "gej_ge")
+_regv("gej_ge_add_ex", pg.P(GEJ_T, GE_T), pg.P(wty(256), GEJ_T),
+      lambda v: (lambda r: ("P", wval(256, r[1] % FE_P), _wr_gej(r[0])))(_gej_add_ge_var(_rd_gej(v[1]), _rd_ge(v[2]))), "gej_ge")
+_regv("gej_equiv", pg.P(GEJ_T, GEJ_T), _B, lambda v: _bitv(_gej_eq(_rd_gej(v[1]), _rd_gej(v[2]), False)), "gej_gej")
+_regv("gej_ge_equiv", pg.P(GEJ_T, GE_T), _B, lambda v: _bitv(_gej_eq(_rd_gej(v[1]), _rd_ge(v[2]), True)), "gej_ge")
+
+
+def _gej_rescale(v):
+    a, s = _rd_gej(v[1]), _rd_fe(v[2])
+    return _wr_gej([a[0] * s * s, a[1] * s ** 3, a[2] * s])
+
+
+def _gej_normalize(v):
+    a = _rd_gej(v)
+    return ("L", ("U",)) if a[3] else ("R", _wr_ge(*_gej_affine(a)))
+
+
+def _gej_x_equiv(v):
+    x, a = _rd_fe(v[1]), _rd_gej(v[2])
+    return _bitv((not a[3]) and (a[2] * a[2] * x - a[0]) % FE_P == 0)
+
+
+def _gej_y_is_odd(v):
+    a = _rd_gej(v)
+    return _bitv((not a[3]) and _gej_affine(a)[1] & 1 == 1)
+
+
+def _decompress(v):
+    q = _lift_x(_rd_fe(v[2]), _bit_of(v[1]))
+    return ("L", ("U",)) if q is None else ("R", _wr_ge(*q))
+
+
+def _scale(v):
+    a = _rd_gej(v[2])
+    _must(_gej_on_curve(a))
+    return _wr_gej(_ecmult(a, wnum(v[1]) % SC_N, 0))
+
+
+def _linear_combination_1(v):
+    a = _rd_gej(v[1][2])
+    _must(_gej_on_curve(a))
+    return _wr_gej(_ecmult(a, wnum(v[1][1]) % SC_N, wnum(v[2]) % SC_N))
+
+
+def _linear_verify_1(v):
+    (_, (_, (_, na, a), ng), b) = v
+    a, b = _rd_ge(a), _rd_ge(b)
+    return _must(_ge_on_curve(a) and _ge_on_curve(b) and _verify_sum(a, wnum(na), wnum(ng), b))
+
+
+def _point_verify_1(v):
+    (_, (_, (_, na, pa), ng), pb) = v
+    a = _lift_x(_rd_fe(pa[2]), _bit_of(pa[1]))
+    b = _lift_x(_rd_fe(pb[2]), _bit_of(pb[1]))
+    return _must(a is not None and b is not None and _verify_sum(a, wnum(na), wnum(ng), b))
+
+
+POINT_T = pg.P(_B, wty(256))
+_regv("gej_rescale", pg.P(GEJ_T, wty(256)), GEJ_T, _gej_rescale, "gej_fe")
+_regv("gej_normalize", GEJ_T, pg.opt(GE_T), _gej_normalize, "gej")
+_regv("gej_x_equiv", pg.P(wty(256), GEJ_T), _B, _gej_x_equiv, "fe_gej")
+_regv("gej_y_is_odd", GEJ_T, _B, _gej_y_is_odd, "gej")
+_regv("decompress", POINT_T, pg.opt(GE_T), _decompress, "point")
+_regv("generate", wty(256), GEJ_T, lambda v: _wr_gej(_ecmult(_INF, 0, wnum(v) % SC_N)), "generate")
+_regv("scale", pg.P(wty(256), GEJ_T), GEJ_T, _scale, "scale")
+_regv("linear_combination_1", pg.P(pg.P(wty(256), GEJ_T), wty(256)), GEJ_T, _linear_combination_1, "lc1")
+_regv("linear_verify_1", pg.P(pg.P(pg.P(wty(256), GE_T), wty(256)), GE_T), UNIT, _linear_verify_1, "lv1")
+_regv("point_verify_1", pg.P(pg.P(pg.P(wty(256), POINT_T), wty(256)), POINT_T), UNIT, _point_verify_1, "pv1")
+_regv("swu", wty(256), GE_T, lambda v: _wr_ge(*_swu(_rd_fe(v))), "swu")
+
+
+def _hash_to_curve(v):
+    """secp256k1_generator_generate: the sum of the two points the key hashes to, in affine coordinates"""
+    import hashlib
+    key = bytes(wbytes(v))
+    ts = [int.from_bytes(hashlib.sha256(pre + key).digest(), "big") for pre in (b"1st generation: ", b"2nd generation: ")]
+    _must(all(t < FE_P for t in ts))
+    q1, q2 = (_swu(t) for t in ts)
+    r, _ = _gej_add_ge_var([q1[0], q1[1], 1, False], list(q2))
+    return _wr_ge(0, 0) if r[3] else _wr_ge(*_gej_affine(r))
+
+
+_regv("hash_to_curve", wty(256), GE_T, _hash_to_curve, "h2c")
+
+
+# ---- BIP-340 signatures (secp256k1_schnorrsig_verify behind secp256k1_xonly_pubkey_parse), from the BIP's text
+def _tagged_hash(tag, data):
+    import hashlib
+    d = hashlib.sha256(tag).digest()
+    return hashlib.sha256(d + d + bytes(data)).digest()
+
+
+def _bip340_verify(pk32, msg, sig64):
+    px, r, sg = (int.from_bytes(bytes(b), "big") for b in (pk32, sig64[:32], sig64[32:]))
+    if px >= FE_P or px == 0 or r >= FE_P or sg >= SC_N:       # (x = 0 is refused by secp256k1_pubkey_load)
+        return False
+    pt = _lift_x(px, 0)
+    if pt is None:
+        return False
+    e = int.from_bytes(_tagged_hash(b"BIP0340/challenge", bytes(sig64[:32]) + bytes(pk32) + bytes(msg)), "big") % SC_N
+    rp = _aff_add(_aff_mul(sg, (G_X, G_Y)), _aff_mul((SC_N - e) % SC_N, tuple(pt)))
+    return rp is not None and rp[1] % 2 == 0 and rp[0] == r
+
+
+def _bip340_sign(d, k, msg):
+    """(public key, signature) as byte strings; the secret d and the nonce k are given"""
+    pt = _aff_mul(d, (G_X, G_Y))
+    if pt[1] & 1:
+        d = SC_N - d
+    rp = _aff_mul(k, (G_X, G_Y))
+    if rp[1] & 1:
+        k = SC_N - k
+    pk32, r32 = pt[0].to_bytes(32, "big"), rp[0].to_bytes(32, "big")
+    e = int.from_bytes(_tagged_hash(b"BIP0340/challenge", r32 + pk32 + bytes(msg)), "big") % SC_N
+    return pk32, r32 + ((k + e * d) % SC_N).to_bytes(32, "big")
+
+
+_regv("bip_0340_verify", wty(1024), UNIT, lambda v: _must(_bip340_verify(wbytes(v[1][1]), wbytes(v[1][2]), wbytes(v[2]))), "bip340")
+_regv("check_sig_verify", pg.P(pg.P(wty(256), wty(512)), wty(512)), UNIT,
+      lambda v: _must(_bip340_verify(wbytes(v[1][1]), _tagged_hash(b"Simplicity\x1fSignature", wbytes(v[1][2])), wbytes(v[2]))), "checksig")
+
+
 def _ctx_edge_values(rng, n_extra):
     """contexts worth trying: every buffer length class, block counts at the limits"""
     out = []
@@ -553,10 +985,160 @@ def _edge_values(name, rng):
                     vals.append(("P", wval(256, x), wval(256, y)))
             vals.append(("P", wval(256, r), wval(256, m - r)))
             vals.append(("P", wval(256, 2 ** 256 - 1), wval(256, 2 ** 256 - 1)))
+    elif fam in _EC_FAMILIES:
+        vals += _ec_edge_values(name, fam, rng)
+    return vals
+
+
+# ---- inputs for the point jets
+_EC_FAMILIES = ("ec_const", "gej", "ge", "gej_gej", "gej_ge", "gej_fe", "fe_gej", "point", "generate", "scale", "lc1", "lv1", "pv1", "swu", "h2c", "bip340", "checksig")
+
+
+def _ec_edge_values(name, fam, rng):
+    p, n = FE_P, SC_N
+    G = (G_X, G_Y)
+    fe = lambda x: wval(256, x)
+    ge = lambda q: ("P", fe(q[0]), fe(q[1]))
+    gej = lambda q: ("P", ("P", fe(q[0]), fe(q[1])), fe(q[2]))
+    rnd = lambda: num(rng.bits(256))
+    rfe = lambda: rnd() % p
+    jac = lambda q, z: (q[0] * z * z % p, q[1] * z ** 3 % p, z % p)
+    neg = lambda q: (q[0], -q[1] % p)
+    k1 = rng.range(2, 1 << 20)
+    P1 = _aff_mul(k1, G)
+    P2 = _aff_mul(rnd() % n, G)
+    P3 = _aff_add(P1, P2)
+    beta_p1 = (P1[0] * FE_BETA % p, P1[1])                      # lambda * P1: the same y
+    y0 = next(x for x in range(1, 50) if pow((x ** 3 + 6) % p, (p - 1) // 2, p) == 1)   # a point of y^2 = x^3 + 6
+    off = (rfe(), rfe())
+    ycube = pow(5, 3, p)
+    # a point with y = 0 (not on the curve: -7 is not a cube): doubling it gives z = 0 with x, y != 0
+    yzero = (rfe(), 0)
+    small_x = next(x for x in range(1, 200) if _lift_x(x, 0) is not None)       # x + p still fits 256 bits
+    Ps = _lift_x(small_x, 1)
+    affs = [G, P1, P2, P3, neg(P1), beta_p1, off, yzero, (0, 0), (1, 1), (p - 1, p - 1), Ps, (Ps[0] + p, Ps[1]), (0, _fsqrt(7)[0])]
+    z1, z2 = rfe() or 1, rfe() or 2
+    jacs = [jac(G, 1), jac(P1, z1), jac(P1, z2), jac(neg(P1), z2), jac(P2, z1), jac(P3, 1), (0, 0, 0), (rfe(), rfe(), 0), (1, 1, 0), (4, 8, 0),
+            jac(off, z1), jac(yzero, z2), (rnd(), rnd(), rnd()), jac(beta_p1, z1), jac(G, p - 1), (Ps[0] + p, Ps[1], 1), jac(P2, 1),
+            (P1[0], P1[1], p), (P1[0], P1[1], p + 1), (2 ** 256 - 1, 2 ** 256 - 1, 2 ** 256 - 1), jac((0, _fsqrt(7)[0]), z1)]
+    scalars = [0, 1, 2, 3, n - 1, n, n + 1, 2 ** 256 - 1, 1 << 128, (1 << 128) - 1, (1 << 127), SC_LAMBDA, n - SC_LAMBDA, 1 << 255, (1 << 255) - 1,
+               rnd(), rnd() % n, rnd() >> 128, rnd() >> 200, (rnd() >> 128) << 128, n // 2, n // 2 + 1, 15, 16, 31, 32, 1 << 14, (1 << 14) + 1,
+               (1 << 15) - 1, ((1 << 129) - 1)]
+    vals = []
+    if fam == "gej":
+        vals = [gej(q) for q in jacs]
+    elif fam == "ge":
+        vals = [ge(q) for q in affs]
+    elif fam == "gej_gej":
+        pairs = [(jacs[1], jacs[2]), (jacs[1], jacs[3]), (jacs[3], jacs[1]), (jacs[1], jacs[4]), (jacs[4], jacs[1]), (jacs[6], jacs[1]), (jacs[1], jacs[6]),
+                 (jacs[6], jacs[6]), (jacs[7], jacs[8]), (jacs[7], jacs[1]), (jacs[1], jacs[7]), (jacs[0], jacs[0]), (jacs[1], jacs[13]),
+                 (jacs[13], jacs[3]), (jacs[10], jacs[10]), (jacs[10], jacs[1]), (jacs[11], jacs[11]), (jacs[11], jacs[2]), (jacs[12], jacs[12]),
+                 (jacs[12], jacs[1]), (jacs[4], jacs[16]), (jacs[16], jacs[4]), (jacs[5], jacs[0]), (jacs[17], jacs[1]), (jacs[1], jacs[18]),
+                 (jacs[19], jacs[19]), (jacs[15], jacs[0]), (jacs[20], jacs[20]), (jac(yzero, z1), jac(yzero, z2)), (jac(off, z1), jac(neg(off), z2)),
+                 (jac(off, z1), jac(off, z2))]
+        vals = [("P", gej(a), gej(b)) for a, b in pairs]
+    elif fam == "gej_ge":
+        pairs = [(jacs[1], P1), (jacs[1], neg(P1)), (jacs[1], P2), (jacs[4], P1), (jacs[6], P1), (jacs[7], P2), (jacs[8], G), (jacs[0], G), (jacs[0], neg(G)),
+                 (jacs[1], beta_p1), (jacs[13], neg(P1)), (jacs[10], off), (jacs[10], neg(off)), (jacs[10], P1), (jacs[11], yzero), (jacs[11], P1),
+                 (jacs[12], off), (jacs[12], (rnd(), rnd())), (jacs[5], P3), (jacs[5], (P3[0], P3[1] + 0)), (jacs[2], (0, 0)), (jacs[6], (0, 0)),
+                 (jacs[1], (P1[0], (P1[1] + 1) % p)), (jacs[15], Ps), (jacs[15], (Ps[0] + p, p - Ps[1])), (jacs[19], (2 ** 256 - 1, 2 ** 256 - 1)), (jacs[2], P1),
+                 (jacs[3], P1), (jacs[3], neg(P1))]
+        vals = [("P", gej(a), ge(b)) for a, b in pairs]
+    elif fam == "gej_fe":
+        cs = [0, 1, 2, p - 1, p, p + 1, 2 ** 256 - 1, rfe(), rfe()]
+        vals = [("P", gej(jacs[k % len(jacs)]), fe(c)) for k, c in enumerate(cs * 3)]
+        vals += [("P", gej(jacs[6]), fe(rfe())), ("P", gej(jacs[1]), fe(0)), ("P", gej(jacs[7]), fe(rfe()))]
+    elif fam == "fe_gej":
+        for q in jacs:
+            zi = _finv(q[2] % p)
+            x = q[0] * zi * zi % p
+            vals.append(("P", fe(x), gej(q)))
+            vals.append(("P", fe((x + 1) % p), gej(q)))
+        vals += [("P", fe(Ps[0] + p), gej(jac(Ps, z1))), ("P", fe(0), gej((0, 0, 0))), ("P", fe(0), gej((0, 5, 1))), ("P", fe(P1[0]), gej(jacs[3])),
+                 ("P", fe(P1[0] * FE_BETA % p), gej(jacs[1]))]
+    elif fam == "point":
+        xs = [G[0], P1[0], P2[0], small_x, small_x + p, 0, 1, 2, 3, 4, 5, 6, 7, p - 1, p, 2 ** 256 - 1, rfe(), rfe(), rfe(), rfe()]
+        vals = [("P", _bitv(b), fe(x)) for x in xs for b in (0, 1)]
+    elif fam == "generate":
+        vals = [fe(k) for k in scalars]
+    elif fam == "scale":
+        pts = [jacs[0], jacs[1], jacs[4], jacs[16], jacs[13], jacs[14]]
+        vals = [("P", fe(k), gej(pts[j % len(pts)])) for j, k in enumerate(scalars)]
+        vals += [("P", fe(rnd()), gej(q)) for q in (jacs[6], jacs[7], jacs[8], jacs[9], jacs[10], jacs[11], jacs[12], jacs[15], jacs[17], jacs[18], jacs[20])]
+        vals += [("P", fe(k), gej(jacs[2])) for k in (0, 1, 2, n - 1, n, SC_LAMBDA)]
+    elif fam == "lc1":
+        pts = [jacs[1], jacs[0], jacs[4], jacs[16], jacs[3], jacs[14]]
+        for j, k in enumerate(scalars):
+            vals.append(("P", ("P", fe(k), gej(pts[j % len(pts)])), fe(scalars[(7 * j + 3) % len(scalars)])))
+        # na * (k1 G) + ng G with cancellations: the sum is the point at infinity or hits the doubling case on the way
+        vals += [("P", ("P", fe(1), gej(jacs[1])), fe(n - k1)), ("P", ("P", fe(2), gej(jacs[2])), fe(n - 2 * k1)), ("P", ("P", fe(1), gej(jacs[1])), fe(k1)),
+                 ("P", ("P", fe(n - 1), gej(jacs[1])), fe(k1)), ("P", ("P", fe(rnd()), gej(jacs[6])), fe(rnd())), ("P", ("P", fe(0), gej(jacs[4])), fe(rnd())),
+                 ("P", ("P", fe(rnd()), gej(jacs[8])), fe(0)), ("P", ("P", fe(rnd()), gej(jacs[10])), fe(rnd())), ("P", ("P", fe(0), gej(jacs[12])), fe(5)),
+                 ("P", ("P", fe(0), gej(jacs[6])), fe(0)), ("P", ("P", fe(rnd()), gej(jacs[0])), fe(rnd())), ("P", ("P", fe(1), gej(jacs[0])), fe(1)),
+                 ("P", ("P", fe(1), gej(jacs[0])), fe(n - 1))]
+    elif fam in ("lv1", "pv1"):
+        comp = lambda q: ("P", _bitv(q[1] & 1), fe(q[0]))
+        enc = ge if fam == "lv1" else comp
+        mk = lambda na, a, ng, b: ("P", ("P", ("P", fe(na), enc(a)), fe(ng)), enc(b))
+        for na, ng in ((1, 0), (0, 1), (1, 1), (2, 3), (n - 1, 1), (rnd(), rnd()), (rnd() % n, 0), (0, rnd()), (n, n + 1), (rnd() >> 128, rnd() >> 130),
+                       (SC_LAMBDA, 1), (2 ** 256 - 1, 2 ** 256 - 1)):
+            a = P1 if na % 3 else P2
+            acc = _aff_add(_aff_mul(na % n, a), _aff_mul(ng % n, G))
+            if acc is not None:
+                vals.append(mk(na, a, ng, acc))
+                vals.append(mk(na, a, ng, neg(acc)))
+            vals.append(mk(na, a, ng, P3))
+        # the sum is the point at infinity (no b can match), a or b not on the curve, coordinates not reduced
+        vals += [mk(1, P1, n - k1, G), mk(0, P1, 0, P1), mk(1, off, 0, off), mk(1, P1, 0, (P1[0], (P1[1] + 1) % p)), mk(1, Ps, 0, (Ps[0] + p, Ps[1])),
+                 mk(1, (Ps[0] + p, Ps[1]), 0, Ps), mk(1, P1, 0, beta_p1), mk(SC_LAMBDA, P1, 0, beta_p1), mk(1, (0, 0), 0, (0, 0)), mk(2, P1, 0, _aff_add(P1, P1)),
+                 mk(1, (3, 0), 0, (3, 0))]
+    elif fam in ("bip340", "checksig"):
+        b32 = lambda x: x.to_bytes(32, "big")
+        mlen = 32 if fam == "bip340" else 64
+
+        def mk(pk32, msg, sig64):
+            return ("P", ("P", bytes_val(list(pk32)), bytes_val(list(msg))), bytes_val(list(sig64)))
+
+        def digest(msg):
+            return msg if fam == "bip340" else _tagged_hash(b"Simplicity\x1fSignature", msg)
+
+        for j in range(3):
+            msg = bytes(num(rng.bits(8)) for _ in range(mlen))
+            d, k = rnd() % n or 1, rnd() % n or 1
+            pk32, sig = _bip340_sign(d, k, digest(msg))
+            vals.append(mk(pk32, msg, sig))                                                   # valid
+            if j == 0:
+                bad_msg = bytes([msg[0] ^ 1]) + msg[1:]
+                vals.append(mk(pk32, bad_msg, sig))
+                vals.append(mk(pk32, msg, sig[:63] + bytes([sig[63] ^ 1])))                   # s off by one bit
+                vals.append(mk(pk32, msg, bytes([sig[0] ^ 0x40]) + sig[1:]))                  # another r
+                sv = int.from_bytes(sig[32:], "big")
+                if sv + n < 2 ** 256:
+                    vals.append(mk(pk32, msg, sig[:32] + (sv + n).to_bytes(32, "big")))       # s not reduced
+                vals.append(mk(pk32, msg, sig[:32] + ((n - sv) % n).to_bytes(32, "big")))     # -s
+                # the same equation with a nonce point of odd y: r matches, the parity does not
+                rp = _aff_mul(k, G)
+                kk = k if rp[1] & 1 else n - k
+                dd = d if _aff_mul(d, G)[1] & 1 == 0 else n - d
+                e = int.from_bytes(_tagged_hash(b"BIP0340/challenge", sig[:32] + pk32 + digest(msg)), "big") % n
+                vals.append(mk(pk32, msg, sig[:32] + ((kk + e * dd) % n).to_bytes(32, "big")))
+        msg = bytes(mlen)
+        pk32, sig = _bip340_sign(3, 5, digest(msg))
+        vals.append(mk(pk32, msg, sig))
+        vals += [mk(b32(0), msg, sig), mk(b32(p), msg, sig), mk(b32(p + 1), msg, sig), mk(b32(2 ** 256 - 1), msg, sig), mk(b32(5), msg, sig),
+                 mk(pk32, msg, b32(p) + sig[32:]), mk(pk32, msg, b32(0) + sig[32:]), mk(pk32, msg, sig[:32] + b32(n)), mk(pk32, msg, sig[:32] + b32(0)),
+                 mk(pk32, msg, bytes(64)), mk(b32(G_X), msg, b32(G_X) + b32(1)), mk(b32(small_x + p), msg, sig)]
+    elif fam == "h2c":
+        vals = [fe(t) for t in (0, 1, 2 ** 256 - 1, rnd(), rnd(), rnd(), rnd(), rnd())]
+    elif fam == "swu":
+        vals = [fe(t) for t in (0, 1, 2, 3, p - 1, p - 2, p, p + 1, 2 ** 256 - 1, rfe(), rfe(), rfe(), rfe(), rfe(), rfe(), rfe(), rfe())]
     return vals
 
 
 SPECIFIED = set(_J) | set(_JV)
+# jets whose Coq specification takes seconds per evaluation (a scalar multiplication): fewer model evaluations
+SLOW_MODEL = {"generate", "scale", "linear_combination_1", "linear_verify_1", "point_verify_1", "hash_to_curve", "swu", "bip_0340_verify",
+              "check_sig_verify"}
 JET_TYPES = {n: (e[0], e[1]) for n, e in list(_J.items()) + list(_JV.items())}
 
 
